@@ -70,7 +70,9 @@ def gen_sp_entity(rng, k):
         loc = "https://sp%d.c08.example/slo/%d" % (k, i)
         rl = "https://sp%d.c08.example/slo-resp/%d" % (k, i) if rng.random() < 0.4 else None
         slo.append((b, loc, rl))
-    disco = ["https://sp%d.c08.example/disco%s" % (k, rng.choice(["", "/r", "?a=b"])) for _ in range(rng.randint(0, 2))]
+    disco = [rng.choice(["https://sp%d.c08.example/disco%s" % (k, rng.choice(["", "/r", "?a=b", "/"])),
+                         "https://sp%d.c08.example/" % k, "https://sp%d.c08.example/saml/ds/" % k])
+             for _ in range(rng.randint(0, 2))]
     return {"entity_id": eid, "spsso": {"keys": [("signing", "sp")], "acs": acs, "slo": slo, "disco": disco}}
 
 
@@ -114,7 +116,7 @@ def gen_cases(rng, tier):
         idps = [gen_idp_entity(rng, k) for k in range(rng.randint(1, 3))]
         all_acs = [ep[1] for e in sps for ep in e["spsso"]["acs"]]
         for _ in range(per):
-            kind = rng.choice(["pick", "pick", "pick", "pick_slo", "sso", "slo", "verify_return"])
+            kind = rng.choice(["pick", "pick", "pick", "pick_slo", "sso", "slo", "slo_multi", "verify_return", "verify_return"])
             if kind == "pick":
                 unknown = rng.random() < 0.08
                 ent = rng.choice(sps)
@@ -167,6 +169,13 @@ def gen_cases(rng, tier):
                 yield {"op": "slo", "md": {"idps": idps, "pref": pref_cfg}, "entity": ent["entity_id"],
                        "preferred": list(pref["single_logout_service"]),
                        "eps": eps_of(ent, "idpsso", "slo"), "expected": exp}
+            elif kind == "slo_multi":
+                ents = [rng.choice(idps) for _ in range(rng.randint(2, 3))]
+                c = rng.randrange(5)
+                exp = None if c < 3 else rng.choice([S.BINDING_POST, S.BINDING_REDIRECT, S.BINDING_SOAP])
+                yield {"op": "slo_multi", "md": {"idps": idps, "pref": pref_cfg}, "entities": [e["entity_id"] for e in ents],
+                       "preferred": list(pref["single_logout_service"]),
+                       "targets": [eps_of(e, "idpsso", "slo") for e in ents], "expected": exp}
             else:
                 ent = rng.choice(sps)
                 disco = ent["spsso"]["disco"]
@@ -176,7 +185,10 @@ def gen_cases(rng, tier):
                 elif disco and c == 2:
                     url = lookalikes(rng, rng.choice(disco))
                 elif disco and c == 3:
-                    url = rng.choice(disco)[:-3]
+                    d0 = rng.choice(disco)
+                    # diverge exactly at the end of the registered location (trailing slash, last characters)
+                    url = rng.choice([d0[:-3], d0.rstrip("/") + ".evil.example/x", d0.rstrip("/") + "@evil.example/",
+                                      d0.rstrip("/") + "x/steal", d0[:-1], d0.rstrip("/")])
                 else:
                     url = rng.choice(["https://evil.example/", "", "https://sp0.c08.example/"])
                 yield {"op": "verify_return", "md": {"sps": sps}, "entity": ent["entity_id"], "disco": disco, "url": url}
@@ -271,6 +283,40 @@ def run_impl(case):
         if sent:
             return {"r": "ok", "binding": S.BINDING_SOAP, "dest": sent[0]}
         return {"r": "skipped"}
+    if op == "slo_multi":
+        sp = _sp(case["md"])
+        sp.send = lambda url=None, **kw: None
+        nid = saml.NameID(text="subject-1", format=saml.NAMEID_FORMAT_TRANSIENT)
+        ents = case["entities"]
+        made, bound = [], []
+        orig_clr, orig_ab = sp.create_logout_request, sp.apply_binding
+
+        def clr(destination, issuer_entity_id, *a, **kw):
+            made.append((issuer_entity_id, destination))
+            return orig_clr(destination, issuer_entity_id, *a, **kw)
+
+        def ab(binding, msg_str, destination="", *a, **kw):
+            info = orig_ab(binding, msg_str, destination, *a, **kw)
+            bound.append((binding, _dest_of(info, binding)))
+            return info
+
+        sp.create_logout_request, sp.apply_binding = clr, ab
+        try:
+            with S.clock(S.NOW0):
+                sp.do_logout(nid, list(ents), "r", S.fmt_time(S.NOW0 + 600), sign=False, expected_binding=case["expected"])
+        except Exception as e:
+            if type(e).__name__ != "LogoutError":  # LogoutError: every entity was handled, some SOAP calls unanswered
+                return {"r": "exception"}
+        finally:
+            sp.create_logout_request, sp.apply_binding = orig_clr, orig_ab
+        per, k = [], 0
+        for eid in ents:
+            if k < len(made) and k < len(bound) and made[k][0] == eid:
+                per.append({"r": "ok", "binding": bound[k][0], "dest": bound[k][1]})
+                k += 1
+            else:
+                per.append({"r": "skipped"})
+        return {"r": "done", "per_entity": per}
     if op == "verify_return":
         ds = _disco(case["md"])
         try:
